@@ -31,7 +31,7 @@ NAMES = ["k", "j", "a", "b", "c", "d"]
 OPS = ["melt_recast", "melt", "transpose", "flatten", "pivot", "unpack", "unpackdict", "capture", "split", "splitdown",
        "dicts", "columns"]
 KEYCELL = st.one_of(gen.keyish, gen.keyish, gen.hvalue)
-TEXT = st.sampled_from(["ab-12", "x-", "-", "", "a", "ab-12-z", "q1", "12"])
+TEXT = st.sampled_from(["ab-12", "x-", "-", "", "a", "ab-12-z", "q1", "12", "AB-1a", "aXbxc", "A"])
 
 
 @st.composite
@@ -60,6 +60,7 @@ def case(draw, tier):
         c["table"] = [list(hdr)] + rows
         c["key"] = [hdr[j] for j in kidx]
         c["keyform"] = draw(st.sampled_from(["names", "indices", "single"]))
+        c["recast_missing"] = draw(st.sampled_from([None, None, "NA", 0]))
         c["variables_given"] = draw(st.booleans())
     elif op in ("transpose", "flatten", "dicts", "columns"):
         cell = st.one_of(gen.scalar, gen.value)
@@ -88,7 +89,8 @@ def case(draw, tier):
             c["samplesize"] = draw(st.sampled_from([1000, 1, 2]))
         else:
             target = TEXT
-            c["pattern"] = draw(st.sampled_from(["-", "(\\w*)-(\\d*)", "[a-z]", "1"]))
+            c["pattern"] = draw(st.sampled_from(["-", "(\\w*)-(\\d*)", "[a-z]", "1", "x", "a(b?)"]))
+            c["flags"] = draw(st.sampled_from([0, 0, re.I]))
             c["maxsplit"] = draw(st.sampled_from([0, 1]))
             c["newfields"] = draw(st.sampled_from([["p", "q"], None]))
             c["fill"] = draw(st.sampled_from([["", ""], ["F", None]]))
@@ -135,7 +137,9 @@ def check(case, ctx):
             if len(molten) - 1 != len(rows) * len(vidx):
                 return fail("melt-count", len(molten) - 1, len(rows) * len(vidx))
             if op == "melt_recast" and vidx:
-                back = _T(etl.recast(molten, key=key if len(key) > 1 else key[0]))
+                rkw = {} if case.get("recast_missing") is None else {"missing": case["recast_missing"]}
+                # every (key, variable) pair has exactly one value - None included - so `missing` must never be used
+                back = _T(etl.recast(molten, key=key if len(key) > 1 else key[0], **rkw))
                 vsorted = sorted(vidx, key=lambda i: hdr[i])
                 srt = sorted(rows, key=lambda r: ref_key(R.keyof(r, kidx)))
                 exp_b = [tuple(key) + tuple(hdr[i] for i in vsorted)] + [tuple(r[i] for i in kidx) + tuple(r[i] for i in vsorted) for r in srt]
@@ -244,17 +248,17 @@ def check(case, ctx):
         elif op in ("capture", "split"):
             f, inc = case["field"], case["include_original"]
             fi = f if isinstance(f, int) else hdr.index(f)
-            prog = re.compile(case["pattern"])
+            prog = re.compile(case["pattern"], case.get("flags", 0))
             nfl = case["newfields"]
             base = [i for i in range(nf) if inc or i != fi]
             exp = [tuple(hdr[i] for i in base) + tuple(nfl or [])]
             if op == "capture":
-                got = _T(etl.capture(T, f, case["pattern"], nfl, include_original=inc, fill=case["fill"]))
+                got = _T(etl.capture(T, f, case["pattern"], nfl, include_original=inc, fill=case["fill"], flags=case.get("flags", 0)))
                 for r in rows:
                     m = prog.search(r[fi])
                     exp.append(tuple(r[i] for i in base) + (tuple(m.groups()) if m else tuple(case["fill"])))
             else:
-                got = _T(etl.split(T, f, case["pattern"], nfl, include_original=inc, maxsplit=case["maxsplit"]))
+                got = _T(etl.split(T, f, case["pattern"], nfl, include_original=inc, maxsplit=case["maxsplit"], flags=case.get("flags", 0)))
                 for r in rows:
                     exp.append(tuple(r[i] for i in base) + tuple(prog.split(r[fi], case["maxsplit"])))
             if not codec.strict_eq(got, exp):
@@ -262,8 +266,8 @@ def check(case, ctx):
         elif op == "splitdown":
             f = case["field"]
             fi = f if isinstance(f, int) else hdr.index(f)
-            prog = re.compile(case["pattern"])
-            got = _T(etl.splitdown(T, f, case["pattern"], maxsplit=case["maxsplit"]))
+            prog = re.compile(case["pattern"], case.get("flags", 0))
+            got = _T(etl.splitdown(T, f, case["pattern"], maxsplit=case["maxsplit"], flags=case.get("flags", 0)))
             exp = [tuple(hdr)]
             for r in rows:
                 for v in prog.split(r[fi], case["maxsplit"]):
